@@ -30,6 +30,8 @@ struct helem {
     uint64_t pad;
     struct cstl_heap_node hn;
     uint64_t tail;
+    struct cstl_heap_node hn2;  /* second node member: a heap may be declared over either; swap exchanges offsets */
+    uint64_t pad2;
 };
 
 struct mheap { int n; struct helem *e[MAXN]; int since_clear; };
@@ -61,9 +63,11 @@ static int cmp_prio(const void *a, const void *b, void *p)
     return (x->prio > y->prio) - (x->prio < y->prio);
 }
 
+static int hkind[2], cur_h;     /* node member each heap is declared over; heap being audited */
+static size_t hoff(int kind) { return kind ? offsetof(struct helem, hn2) : offsetof(struct helem, hn); }
 static struct helem *elem_of(const struct cstl_bintree_node *n)
 {
-    return (struct helem *)((char *)n - offsetof(struct helem, hn.bn));
+    return (struct helem *)((char *)n - hoff(hkind[cur_h]) - offsetof(struct cstl_heap_node, bn));
 }
 
 static int a_count;
@@ -98,7 +102,7 @@ static void audit_heap(int h)
     static const void *g;
     if (cstl_heap_size(&hp[h]) != (size_t)m->n)
         VIOL(h, "size", "heap %d reports size %zu, reference has %d", h, cstl_heap_size(&hp[h]), m->n);
-    walk_epoch++; a_count = 0;
+    walk_epoch++; a_count = 0; cur_h = h;
     audit_node(h, hp[h].bt.root, NULL, 1, 0);
     if (a_count != m->n) VIOL(h, "reachable_count", "heap %d: %d nodes reachable, reference has %d", h, a_count, m->n);
     for (i = 0; i < m->n; i++)
@@ -155,11 +159,12 @@ static void h_exec(const plan_t *p)
     nh = (int)p->cfg[CF_NH]; if (nh < 1) nh = 1; if (nh > 2) nh = 2;
     prios = (int)p->cfg[CF_PRIOS]; if (prios < 1) prios = 1;
     maxn = (int)p->cfg[CF_MAXN]; if (maxn < 1) maxn = 4; if (maxn > MAXN - 8) maxn = MAXN - 8;
-    clear_frees = (int)p->cfg[CF_CLEARFREES];
+    clear_frees = (int)(p->cfg[CF_CLEARFREES] & 1);
     next_id = 0; maxreach = 0;
     memset(hp, (int)(unsigned char)p->cfg[CF_JUNK], sizeof hp);
     for (i = 0; i < 2; i++) {
-        cstl_heap_init(&hp[i], cmp_prio, NULL, offsetof(struct helem, hn));
+        hkind[i] = (int)(p->cfg[CF_CLEARFREES] >> (4 + i) & 1);
+        cstl_heap_init(&hp[i], cmp_prio, NULL, hoff(hkind[i]));
         mh[i].n = 0; mh[i].since_clear = -1;
     }
 
@@ -238,6 +243,8 @@ static void h_exec(const plan_t *p)
             memcpy(mh[u].e, tmp, sizeof(m->e[0]) * (size_t)n); mh[u].n = n; mh[u].since_clear = sc;
             for (j = 0; j < m->n; j++) m->e[j]->heap = h;
             for (j = 0; j < mh[u].n; j++) mh[u].e[j]->heap = u;
+            j = hkind[h]; hkind[h] = hkind[u]; hkind[u] = j;
+            if (hkind[h] != hkind[u]) PROBE("swap_different_offsets");
             PROBE("swap"); EVT("swap", h, u, 0);
             g_cur_prop = prop_of(u); g_cur_ctx = ctx_of(u);
             audit_heap(u); tick(u);
@@ -266,7 +273,7 @@ static void h_gen(prng_t *r, int mode, plan_t *p)
     p->cfg[CF_PRIOS] = small ? 1 + prng_below(r, 3) : 1 + prng_below(r, 40);
     p->cfg[CF_JUNK] = 1 + prng_below(r, 254);
     p->cfg[CF_MAXN] = longrun ? 200 + prng_below(r, 850) : small ? 2 + prng_below(r, 6) : 4 + prng_below(r, 60);
-    p->cfg[CF_CLEARFREES] = mode == 15 ? 1 : prng_below(r, 2);
+    p->cfg[CF_CLEARFREES] = (mode == 15 ? 1 : prng_below(r, 2)) | (prng_chance(r, 1, 3) ? prng_below(r, 4) << 4 : 0);
     for (i = 0; i < nops; i++) {
         unsigned x = (unsigned)prng_below(r, 100 + w_clear);
         int kind = x < push_w ? H_PUSH : x < 90 ? H_POP : x < 94 ? H_GET : x < 100 ? H_SWAP : H_CLEAR;
